@@ -17,7 +17,7 @@ pub struct Local {
 
 impl Local {
     pub fn new(codec: &str) -> Self {
-        Self { codec: codec.to_owned(), ..Self::default() }
+        Self { codec: codec.to_owned(), adds: BTreeMap::new(), maxes: BTreeMap::new() }
     }
     pub fn add(&mut self, key: &str, n: u64) {
         *self.adds.entry(key.to_owned()).or_insert(0) += n;
